@@ -525,6 +525,136 @@ def part_builtin_matrix(ctx, tmp):
     return stats, n, n_exec
 
 
+# ------------------------------------------------------------------ fixed families (never sampled, identical for every seed)
+SHIFT_AMOUNTS = [("256", 256), ("257", 257), ("2**64", 2 ** 64), ("2**255", 2 ** 255), (str(2 ** 256 - 1), 2 ** 256 - 1)]
+
+
+def shift_programs():
+    """shifts by 256, 257, 2**64, 2**255, 2**256-1 of constants and run-time values: `<<` / `>>` on uint256 and int256 and
+    the `shift` builtin, the amount given as literal / folded expression / module constant / local variable (known only
+    after constant propagation) / argument of an inlined internal function / max_value."""
+    progs = []
+    ops = [("shl_c", "uint256", "{v} << {n}", "3"), ("shl_x", "uint256", "x << {n}", None), ("shr_c", "uint256", "{v} >> {n}", "2**255"),
+           ("shr_x", "uint256", "x >> {n}", None), ("sar_c", "int256", "{v} >> {n}", "-5"), ("shl_i", "int256", "{v} << {n}", "7")]
+
+    def fn(name, typ, body_lines, ret, argt="uint256"):
+        return f"@external\ndef {name}(x: {argt}) -> {typ}:\n" + "".join(f"    {l}\n" for l in body_lines) + f"    return {ret}\n"
+    # amount forms which the front end sees as a value <= 256 are legal everywhere; larger syntactic literals are rejected
+    # by the front end (a user diagnostic: counted, not reported)
+    for form in ("literal", "folded", "constant", "local", "internal", "local_max"):
+        decls, helpers, fns = [], [], []
+        for ai, (atxt, aval) in enumerate(SHIFT_AMOUNTS):
+            if form == "local_max" and aval != 2 ** 256 - 1:
+                continue
+            for oname, typ, fmt, v in ops:
+                if form in ("literal", "folded", "constant") and oname in ("shl_c", "shl_i"):
+                    continue    # the front end folds `3 << 256` itself (out of range: a user diagnostic)
+                argt = typ
+                name = f"{oname}_{ai}"
+                if form == "literal":
+                    fns.append((aval, fn(name, typ, [], fmt.format(v=v, n=atxt), argt)))
+                elif form == "folded":
+                    fns.append((aval, fn(name, typ, [], fmt.format(v=v, n=f"({atxt} - 1 + 1)"), argt)))
+                elif form == "constant":
+                    decls.append(f"N{ai}: constant(uint256) = {atxt}")
+                    fns.append((aval, fn(name, typ, [], fmt.format(v=v, n=f"N{ai}"), argt)))
+                elif form == "local":
+                    fns.append((aval, fn(name, typ, [f"n: uint256 = {atxt}"] + ([f"v: {typ} = {v}"] if v else []),
+                                         fmt.format(v="v", n="n"), argt)))
+                elif form == "internal":
+                    helpers.append(f"@internal\ndef _{name}(a: {typ}, n: uint256) -> {typ}:\n    return " + fmt.format(v="a", n="n").replace("x ", "a ") + "\n")
+                    fns.append((aval, fn(name, typ, [], f"self._{name}({v if v else 'x'}, {atxt})", argt)))
+                else:
+                    fns.append((aval, fn(name, typ, ["n: uint256 = max_value(uint256)"] + ([f"v: {typ} = {v}"] if v else []),
+                                         fmt.format(v="v", n="n"), argt)))
+        # literal / folded / constant amounts above 256 are rejected by the front end: keep them in a program of their own
+        for big in (False, True):
+            sel = [f for a, f in fns if (a > 256) == big] if form in ("literal", "folded", "constant") else ([f for _, f in fns] if not big else [])
+            if sel:
+                d = [x for x in dict.fromkeys(decls)]
+                progs.append((f"shift:{form}:{'gt256' if big else 'le256'}" if form in ("literal", "folded", "constant") else f"shift:{form}",
+                              "\n".join(d) + ("\n\n" if d else "") + "\n".join(helpers + sel)))
+    # the deprecated builtin, amounts through a local (int256 amount: +-256, +-257, min/max)
+    b = []
+    for i, n in enumerate(["256", "-256", "257", "-257", "2**64", "-2**64", "max_value(int256)", "min_value(int256)"]):
+        b.append(f"@external\ndef sb_{i}(x: uint256) -> uint256:\n    n: int256 = {n}\n    return shift(x, n)\n")
+        b.append(f"@external\ndef sc_{i}(x: uint256) -> uint256:\n    n: int256 = {n}\n    v: uint256 = 5\n    return shift(v, n)\n")
+    progs.append(("shift:builtin", "\n".join(b)))
+    return progs
+
+
+SELECTOR_FAMILIES = [(16, 12, 0), (14, 12, 0), (18, 12, 6), (20, 60, 0), (15, 30, 0), (24, 12, 0), (12, 4, 0), (30, 2, 0), (16, 7, 3), (40, 12, 0)]
+
+
+def selector_programs():
+    """n external functions whose method ids are all = r mod k (names mined deterministically): bucket counts dividing k
+    leave empty buckets, so the dense jump table (codesize) needs its exhaustive fallback"""
+    from eth_utils import keccak
+    out = []
+    for n, k, r in SELECTOR_FAMILIES:
+        names, i = [], 0
+        while len(names) < n:
+            nm = f"g{i}"
+            if int.from_bytes(keccak(f"{nm}()".encode())[:4], "big") % k == r:
+                names.append(nm)
+            i += 1
+        src = "".join(f"@external\ndef {nm}() -> uint256:\n    return {j}\n\n" for j, nm in enumerate(names))
+        out.append((f"selectors:{n}={r}mod{k}", src, [int.from_bytes(keccak(f"{nm}()".encode())[:4], "big") for nm in names]))
+    return out
+
+
+def dense_solvable(ids):
+    """independent search: is there a bucket count with no empty bucket in which every bucket has a 16-bit magic?"""
+    n = len(ids)
+    for nb in range(1, n + 1):
+        buckets = {}
+        for x in ids:
+            buckets.setdefault(x % nb, []).append(x)
+        if len(buckets) != nb:
+            continue
+        ok = True
+        for xs in buckets.values():
+            L = len(xs)
+            if not any(len({((x * m) >> 24) % L for x in xs}) == L for m in range(2 ** 16)):
+                ok = False
+                break
+        if ok:
+            return True
+    return False
+
+
+def part_fixed(ctx, tmp):
+    """fixed program families, independent of the seed and of any sampling: every optimisation level of both pipelines"""
+    items = [{"id": f"fx{i}", "src": p[1], "how": "fixed-family", "base": p[0], "ids": p[2] if len(p) > 2 else None}
+             for i, p in enumerate(shift_programs() + selector_programs())]
+    nsh = 3
+    shards = [items[k::nsh] for k in range(nsh)]
+    with ThreadPoolExecutor(max_workers=nsh) as ex:
+        rows = [r for rs in ex.map(lambda k: run_shard(tmp, 50 + k, [{"id": it["id"], "src": it["src"]} for it in shards[k]], 20, ALL_CONFIGS),
+                                   range(nsh)) for r in rs]
+    by_id = {it["id"]: it for it in items}
+    # a selector set for which NO bucket count has a perfect hash (independent search) is the known, proved defect
+    # (dense_table_refuted); a RuntimeError on a set which has a solution is a new failure and keeps its own key
+    for r in rows:
+        it = by_id[r["id"]]
+        if not it["base"].startswith("selectors:"):
+            continue
+        hit = [o for o in r["runs"].values() if o.get("exc") == "RuntimeError" and "generate_dense_jumptable_info" in str(o.get("frame"))]
+        if hit and not dense_solvable(it["ids"]):
+            for o in hit:
+                o["outcome"] = "known-unsolvable"
+            ctx.violation("failing-input", "generate_dense_jumptable_info raises a raw RuntimeError on a valid program (no bucket count has a 16-bit magic)",
+                          {"source": it["src"], "family": it["base"], "config": "-O codesize (both pipelines)", "exception": hit[0].get("msg", "")[:200]},
+                          key="C20:dense-jumptable-runtimeerror")
+    # the families are only useful while the front end accepts them (except the > 256 literal forms)
+    for r in rows:
+        nm = by_id[r["id"]]["base"]
+        if r["front"]["outcome"] != "output" and "gt256" not in nm:
+            ctx.violation("correspondence-broken", "a fixed-family program is no longer accepted by the front end",
+                          {"family": nm, "source": by_id[r["id"]]["src"], "outcome": r["front"]})
+    return classify_rows(ctx, rows, items, "valid", tag="fixed")
+
+
 def part_cf_exec(ctx, tmp):
     """seeded control-flow programs (word locals: vlib/c18_corpus.gen_cf_program; memory arrays, ternaries of arrays, internal
     calls with array arguments / results, DynArray append / pop, storage copies: vlib/c20_cf_gen.gen_cf_mem_program), none of
@@ -783,6 +913,7 @@ def run(ctx):
         estats, n_env = part_env_matrix(ctx, tmp)
         mstats, n_matrix, n_matrix_exec = part_builtin_matrix(ctx, tmp)
         cstats, n_cf, n_cf_exec = part_cf_exec(ctx, tmp)
+        fstats, n_fixed = part_fixed(ctx, tmp)
         r_arity = probe_arity(ctx)
         from vlib import c20_pow
         n_pow = c20_pow.run(ctx)
@@ -821,7 +952,7 @@ def run(ctx):
     if not b["ok"] and len(ctx.violations) + len(ctx.known_hits) == nv0:
         ctx.violation("theorem-broken", f"{b.get('failed_lemma')} in {b['file']}",
                       {"theorem": b.get("failed_lemma"), "file": b["file"], "coq_output": b["out"][-1500:]})
-    ctx.corr["evaluations"] = int(stats["compilations"]) + int(vstats["compilations"]) + int(estats["compilations"]) + int(mstats["compilations"]) + n_matrix_exec + int(cstats["compilations"]) + n_cf_exec + n_dense + 4 + n_pow
+    ctx.corr["evaluations"] = int(stats["compilations"]) + int(vstats["compilations"]) + int(estats["compilations"]) + int(mstats["compilations"]) + n_matrix_exec + int(cstats["compilations"]) + n_cf_exec + int(fstats["compilations"]) + n_dense + 4 + n_pow
     ctx.corr["distinct_nontrivial"] = n_items + n_valid + n_dense + 4 + n_pow
     ctx.corr["rule"] = "distinct source texts (unchanged + mutated) each compiled by the front end and up to 4 (quick) / 8 back-end configs; dense id sets; 3 targeted probes"
     ctx.extra["explanation"] = (
